@@ -55,7 +55,7 @@ def make_source(frames, n_nodes, edges=None):
         inst = [np.asarray(a, dtype="float64") for a in fr["animals"]]
         if not inst:  # LabelsReader needs a labelled frame; an all-NaN instance is an empty instance
             inst = [np.full((n_nodes, 2), np.nan)]
-        fl.append(dict(image=frame_image(h, w, fid), instances=inst, video=0))
+        fl.append(dict(image=frame_image(h, w, fid), instances=inst, video=int(fr.get("video", 0))))
     return make_labels(fl, n_nodes=n_nodes, edges=edges)
 
 
